@@ -148,15 +148,15 @@ theorem hotEmit_inv {p : Nat × Nat → Bool} (w : W) (n : Notif) (h : Inv p w) 
     Inv p (w.hotEmit n).1 ∧ Tr p w (w.hotEmit n).1 (hotEmitI w n) := by
   have key : ∀ t : Notif, t.isTerm = true →
       Inv p (if w.hotOpen then
-          (if w.hotEntry && w.connCell && w.subj.observers.isSome then
+          (if w.hotEntry && w.connCell then
             tapCall { w with hotOpen := false, connCell := false } t
           else ({ w with hotOpen := false }, [])) else (w, [])).1 ∧
       Tr p w (if w.hotOpen then
-          (if w.hotEntry && w.connCell && w.subj.observers.isSome then
+          (if w.hotEntry && w.connCell then
             tapCall { w with hotOpen := false, connCell := false } t
           else ({ w with hotOpen := false }, [])) else (w, [])).1
         (if w.hotOpen then
-          if w.hotEntry && w.connCell && w.subj.observers.isSome then subjCallI w t else []
+          if w.hotEntry && w.connCell then subjCallI w t else []
         else []) := by
     intro t _
     split
